@@ -26,7 +26,9 @@ RULE = (
     'cases = the seeded choice-model configurations of C05 (2-7 alternatives with arbitrary labels, 3-6 rows of utilities '
     'and availability patterns incl. whole nests unavailable, availability dictionaries in several object-sharing styles '
     '(fresh expression per alternative / one Variable or compound object reused by members of a nest and across nests / one '
-    'Numeric(1) object / plain int, bool / None), utilities sharing or not their sub-expression objects, nested structures with alternatives left alone, nest '
+    'Numeric(1) object / plain int, bool / None), utilities sharing or not their sub-expression objects, utility / '
+    'availability / allocation dicts, nest member lists and choice sets in independently shuffled insertion orders, every '
+    'alternative unavailable on some row, nested structures with alternatives left alone, nest '
     'parameters in [1,10] as float/Numeric/fixed or free Beta, scale in [1, min nest parameter]) plus directed ones; on '
     'each, five families of relations between two executions of the real model functions are evaluated on every row. A '
     'case is non-trivial when >= 3 relations were evaluated on >= 1 row with >= 2 available alternatives; distinct = hash of '
@@ -378,7 +380,8 @@ def finalize(cov, tier):
             'central_difference_alone-alternative', 'feature_rows_whole_nest_unavailable', 'feature_nl_alone', 'availability_none',
             'feature_same_nest_members_share_availability_object', 'feature_availability_object_shared_across_nests',
             'availability_objects_group_var', 'availability_objects_group_expr', 'availability_objects_one_object',
-            'utility_objects_shared']
+            'utility_objects_shared', 'feature_utility_and_availability_dicts_in_different_orders',
+            'feature_every_alternative_unavailable_on_some_row']
     for k in need:
         if cov.get(k, 0) == 0:
             out.append(f'relation / workload feature never observed: {k}')
